@@ -19,11 +19,11 @@ RULE = ("each evaluation is one scenario: a generated cluster (1..4 brokers, lea
 ASSUMPTIONS = ["calls inside one scenario are issued one after the other so that every frame can be attributed to "
                "its call", "payload lists never repeat a (topic, partition) (the wire format cannot carry that)",
                "'metadata last served' = the latest Metadata reply sent to this client before the request arrived"]
-REACH_MIN = {"multi_broker_calls": {"quick": 150, "thorough": 4000},
-             "partial_failures": {"quick": 80, "thorough": 2000},
-             "coordinator_calls": {"quick": 80, "thorough": 2000},
-             "broker_agnostic_all_fail": {"quick": 30, "thorough": 600},
-             "leaderless_calls": {"quick": 20, "thorough": 400}}
+REACH_MIN = {"multi_broker_calls": {"quick": 150, "thorough": 2243},
+             "partial_failures": {"quick": 64, "thorough": 957},
+             "coordinator_calls": {"quick": 80, "thorough": 1196},
+             "broker_agnostic_all_fail": {"quick": 30, "thorough": 448},
+             "leaderless_calls": {"quick": 20, "thorough": 299}}
 
 TIMEOUT_MS = 2000
 
